@@ -3,7 +3,7 @@ import itertools
 
 from engine import loader
 from engine.runner import Acc
-from engine.util import call, chunks, other_bits, feq
+from engine.util import call, chunks, other_bits, feq, vary_case
 from spec import frames as F
 
 LEVEL = "exploration"
@@ -157,7 +157,7 @@ def w_field(arg):
         if st is not None:
             fields.append((6, 2, st))
         for bg in bgs:
-            msg = frame(tc, fields, bg, keep)
+            msg = vary_case(frame(tc, fields, bg, keep), acc.n)
             acc.n += 1
             s = judge_field(spec_i, values, msg)
             if s:
